@@ -204,6 +204,18 @@ CHECKS = {
         note='Trusted: z3 (linear real arithmetic); GEOS/shapely itself is outside (only the repo\'s use of its answers is checked); the '
              'baseline length is a free non-negative real.  Known finding: duplicate ids with multi-orientation on pre-existing regions.',
         design='4/C11'),
+    'C18': dict(
+        text='ONLY the coordinate clause (second sentence) of the property: bounded symbolic execution of the real '
+             'LayoutEngine.rotate_layout, LayoutEngine.detect (network, map parser and clustering replaced by stubs returning '
+             'symbolic points in the rotated frame) and layout_helpers.order_lines_vertical for a page of symbolic, possibly '
+             'non-square size and all four orientations: z3 decides that every returned baseline, outline and region point lies '
+             'within one pixel (per axis) of its position in the original image (np.rot90 index map as documented), and that '
+             'baselines, heights and outlines stay aligned index-wise through the vertical ordering.  The first sentence (one text '
+             'line per ridge of the detection maps, end points, heights) is NOT claimed: it is scipy.ndimage morphology over whole '
+             'maps, outside what this technique reaches here (DESIGN.md 7.6).',
+        note='Trusted: z3 (linear arithmetic); np.rot90 index map (the replay measures it on a real rotated image); jittered sort '
+             'keys assumed distinct (probability-0 event otherwise).',
+        design='4/C18, 7.6'),
 }
 
 NOT_APPLICABLE = {
